@@ -22,7 +22,7 @@ def describe(tier):
         'bounds': 'N<=%d exhaustive over partitions; boundary lengths up to %d' % (n, MAXLEN[tier]),
         'assumptions': ['one DRBG value assignment per shape and seed (data values are outside the enumerated alphabet)',
                         'supported grid: PRF output width = next key width; SSE-1 array size a power of two and N < s; Pi2Lev |DB(w)| < B*B\'*b\''],
-        'must_be_nonzero': ['pi2lev-small', 'pi2lev-medium', 'pi2lev-large', 'N=1', 'single-list-2^k', 'dp17-L>1', 'piptr-index-2-bytes'],
+        'must_be_nonzero': ['rebuild-same-key', 'pi2lev-small', 'pi2lev-medium', 'pi2lev-large', 'N=1', 'single-list-2^k', 'dp17-L>1', 'piptr-index-2-bytes'],
     }
 
 
@@ -113,6 +113,31 @@ def run_case(r, seed, name, label, cfg, profile, kwlen, relation, cache=None):
             kind = sse.classify_diff(name, got, db[w])
             r.v(PROPERTY, name, 'result-differs', kind, dict(case, keyword=w), db[w], got)
             r.outcome('result-differs/' + kind)
+    if N <= 7 and cache is not None:
+        # the database changes (every list loses its last posting or gets a new one, one keyword is replaced) and is encrypted
+        # again under the SAME key by the same scheme object; both indexes must answer from their own database
+        g2 = det.rng(seed, 'db2', name, label, tuple(profile), kwlen)
+        ids = cfg.get('param_identifier_size', 8)
+        db2 = {}
+        for i, (w, lst) in enumerate(db.items()):
+            new = list(lst[:-1]) if (len(lst) > 1 and i % 2 == 0) else list(lst) + [x for x in domains.make_ids(3, ids, g2, awkward=False) if x not in lst][:1]
+            if new:
+                db2[w] = new
+        if db2 and sse.finalize_cfg(name, cfg, db2) == cfg2 and sse.valid_profile(name, cfg, [len(v) for v in db2.values()]):
+            r.count('rebuild-same-key')
+            try:
+                edb2 = scheme.EDBSetup(key, db2)
+                r['transitions'] += 1
+                for which, e_, d_ in (('rebuilt', edb2, db2), ('original', edb, db)):
+                    for w in d_:
+                        got = scheme.Search(e_, scheme.TokenGen(key, w)).get_result_list()
+                        r['transitions'] += 2
+                        if not sse.result_ok(name, got, d_[w]):
+                            r.v(PROPERTY, name, 'result-differs', 'after-rebuild-under-same-key/%s/%s' % (which, sse.classify_diff(name, got, d_[w])),
+                                dict(case, keyword=w, rebuilt=True), d_[w], got)
+                            r.outcome('result-differs/rebuild')
+            except Exception as e:
+                r.v(PROPERTY, name, 'search-raises', 'rebuild:%s:%s' % (core.exc_site(e), type(e).__name__), dict(case, rebuilt=True), 'second setup under the same key works', core.exc_text(e))
     if r['evaluations'] % 97 == 1:
         r.sample({'scheme': name, 'cfg_point': label, 'profile': profile, 'kwlen': kwlen, 'relation': relation})
 
